@@ -48,9 +48,10 @@ fn recorded(t: u64) -> bool {
 /// host h (ASCII, 1..=N bytes, no leading/trailing dot in the domain part), registrable-domain split at any
 /// position that is 0 or follows a '.' (the documented contract of the resolver)
 fn draw_host<const N: usize>() -> ([u8; N], usize, usize) {
-    let hb: [u8; N] = crate::verif_shim::any_bytes::<N>();
-    let hl: usize = kani::any();
-    let ds: usize = kani::any();
+    let mut dr = crate::verif_shim::Draw::new();
+    let hb: [u8; N] = dr.bytes::<N>();
+    let hl: usize = dr.usize();
+    let ds: usize = dr.usize();
     kani::assume(hl >= 1 && hl <= N);
     let mut i = 0;
     while i < N {
@@ -159,9 +160,10 @@ fn c16_entity_t() {
 #[kani::proof]
 #[kani::unwind(4)]
 fn c16_generic() {
-    let (e, h, ne, nh): (bool, bool, bool, bool) = (kani::any(), kani::any(), kani::any(), kani::any());
-    let mbits: u8 = kani::any();
-    let act: bool = kani::any();
+    let mut dr = crate::verif_shim::Draw::new();
+    let (e, h, ne, nh): (bool, bool, bool, bool) = (dr.bool(), dr.bool(), dr.bool(), dr.bool());
+    let mbits: u8 = dr.u8();
+    let act: bool = dr.bool();
     let f = CosmeticFilter {
         entities: if e { Some(vec![1]) } else { None },
         hostnames: if h { Some(vec![2]) } else { None },
